@@ -263,9 +263,94 @@ def make_case(specs, txns, decorate=None):
     return {'header': HEADER_LINE, 'rule_lines': lines, 'csv': HEADER_LINE + body, 'txns': txns, 'specs': specs}
 
 
+def mk(pattern, m, c, s, tags=(), mods=(), descs=()):
+    return {'pattern': pattern, 'descs': list(descs), 'mods': [(x, 'text', {}) for x in mods], 'm': m, 'c': c, 's': s,
+            'tags': list(tags), 'ncols': 5, 'hazard': None}
+
+
+def tx(d, a='12.5', dt='2025-03-15'):
+    return {'d': d, 'a': a, 'dt': dt}
+
+
+def interaction_cases():
+    """Deterministic corpus for rule-ORDER and block-IDENTITY effects (the CSV is first-match in file order, tags
+    accumulate over all matching rows): the same merchant/category/subcategory/tags repeated on non-adjacent rows
+    with an overlapping rule of another merchant in between, exact duplicate rows, same merchant with another
+    category, rows out of alphabetical order, shadowing, modifiers on the repeated row, tag-only rows in between."""
+    A = ('Amazon', 'Shopping', 'Online')
+    P = ('Prime Video', 'Subscriptions', 'Streaming')
+    txs = [tx('AMAZON PRIME VIDEO CHANNELS'), tx('AMZN MKTP US*2K4'), tx('PRIME VIDEO *1A2'), tx('AMAZON.COM*MK1'),
+           tx('AMZN MKTP PRIME VIDEO'), tx('WHOLE FOODS')]
+    out = []
+    # the later row of a merchant must not move up past the rule in between
+    out.append(([mk('AMZN MKTP', *A), mk('PRIME VIDEO', *P), mk('AMAZON', *A)], txs))
+    out.append(([mk('AMZN MKTP', *A, tags=['shop']), mk('PRIME VIDEO', *P, tags=['tv']), mk('AMAZON', *A, tags=['shop'])], txs))
+    out.append(([mk('AMZN MKTP', *A), mk('PRIME VIDEO', *P), mk('WHOLE FOODS', 'Whole Foods', 'Food', 'Groceries'),
+                 mk('AMAZON', *A)], txs))
+    # ... nor the earlier one move down
+    out.append(([mk('AMAZON', *A), mk('PRIME VIDEO', *P), mk('AMZN MKTP', *A)], txs))
+    # modifiers on the repeated rows (and/or precedence if blocks were merged)
+    out.append(([mk('AMZN MKTP', *A, mods=['[amount>50]']), mk('PRIME VIDEO', *P, mods=['[amount<=20]']),
+                 mk('AMAZON', *A, mods=['[amount:10-100]'])],
+                [tx('AMAZON PRIME VIDEO CHANNELS', a) for a in ('5', '15', '20', '60', '150')]
+                + [tx('AMZN MKTP US', a) for a in ('5', '50', '50.01', '150')]))
+    out.append(([mk('AMZN', *A, mods=['[month=3]']), mk('PRIME', *P), mk('AMAZON', *A, mods=['[date:2025-01-01..2025-06-30]'])],
+                [tx('AMAZON PRIME', dt=d) for d in ('2025-03-15', '2025-07-01', '2024-03-15')]
+                + [tx('AMZN PRIME', dt=d) for d in ('2025-03-15', '2025-04-15')] + [tx('AMAZON', dt='2025-07-01')]))
+    # adjacent repeats, exact duplicate rows
+    out.append(([mk('AMZN MKTP', *A), mk('AMAZON', *A), mk('PRIME VIDEO', *P)], txs))
+    out.append(([mk('AMAZON', *A, tags=['x']), mk('PRIME VIDEO', *P), mk('AMAZON', *A, tags=['x'])], txs))
+    # same merchant, other category / subcategory / tags: never the same block
+    out.append(([mk('AMZN MKTP', *A), mk('PRIME VIDEO', *P), mk('AMAZON', 'Amazon', 'Bills', 'Online')], txs))
+    out.append(([mk('AMZN MKTP', *A), mk('PRIME VIDEO', *P), mk('AMAZON', 'Amazon', 'Shopping', 'Video')], txs))
+    out.append(([mk('AMZN MKTP', *A, tags=['a']), mk('PRIME VIDEO', *P, tags=['p']), mk('AMAZON', *A, tags=['b'])], txs))
+    # merchant names differing only in letter case
+    out.append(([mk('AMZN MKTP', 'Amazon', 'Shopping', 'Online'), mk('PRIME VIDEO', *P), mk('AMAZON', 'AMAZON', 'Shopping', 'Online')], txs))
+    # tag-only rows in between and repeated tag-only rows (tags accumulate; first categorising row wins)
+    out.append(([mk('PRIME', 'Prime tag', '', '', tags=['prime']), mk('AMAZON', *A, tags=['shop']), mk('VIDEO', 'Prime tag', '', '', tags=['prime']),
+                 mk('PRIME VIDEO', *P)], txs))
+    out.append(([mk('AMAZON', 'T', '', '', tags=['t1']), mk('PRIME VIDEO', *P), mk('CHANNELS', 'T', '', '', tags=['t1']), mk('AMAZON', *A)], txs))
+    # rows out of alphabetical order with an overlap (a converter that sorts or groups by name would reorder)
+    out.append(([mk('VIDEO', 'Zulu', 'Z', 'z'), mk('PRIME', 'Alpha', 'A', 'a'), mk('AMAZON', 'Mike', 'M', 'm')], txs))
+    out.append(([mk('AMAZON', 'Mike', 'M', 'm'), mk('PRIME', 'Alpha', 'A', 'a'), mk('VIDEO', 'Zulu', 'Z', 'z')], txs))
+    # general rule first shadows the specific one / specific first
+    out.append(([mk('AMAZON', *A), mk('AMAZON PRIME VIDEO', *P)], txs))
+    out.append(([mk('AMAZON PRIME VIDEO', *P), mk('AMAZON', *A)], txs))
+    # a skipped no-op row between repeats, and one as the first row
+    out.append(([mk('AMZN MKTP', *A), mk('PRIME', 'Noop', '', ''), mk('PRIME VIDEO', *P), mk('AMAZON', *A)], txs))
+    out.append(([mk('PRIME', 'Noop', '', ''), mk('AMAZON', *A), mk('PRIME VIDEO', *P)], txs))
+    return [make_case(specs, t) for specs, t in out]
+
+
+SEPARATORS = ['\x0b', '\x0c', '\x1c', '\x1d', '\x1e', '\x85', '\u2028', '\u2029']
+
+
+def separator_cases():
+    """ORACLE-ONLY corpus (outside the Coq model's boundary): characters that str.splitlines() treats as line
+    breaks but split('\\n') does not — VT, FF, FS, GS, RS, NEL (cp1252 ellipsis read as latin-1), LS, PS — and
+    Unicode spaces, inside and at the ends of every kind of cell. The generated file must load and classify
+    like the CSV rules."""
+    out = []
+    for ch in SEPARATORS:
+        txs = [tx(f'CAFE{ch}BAR 12'), tx('CAFE BAR 12'), tx('CAFEBAR'), tx('OTHER')]
+        out.append(([mk('CAFE', f'Caf{ch}Bar', 'Food', 'Coffee', tags=['t'])], txs))
+        out.append(([mk('CAFE', 'Cafe', f'Food{ch}Drink', 'Coffee')], txs))
+        out.append(([mk('CAFE', 'Cafe', 'Food', f'Cof{ch}fee')], txs))
+        out.append(([mk(f'CAFE{ch}BAR', 'Cafe', 'Food', 'Coffee'), mk('OTHER', 'Other', 'Misc', '')], txs))
+        out.append(([mk('CAFE', 'Cafe', 'Food', 'Coffee', tags=[f'a{ch}b', 'c'])], txs))
+        out.append(([mk('CAFE', f'{ch}Cafe{ch}', f'Food{ch}', f'{ch}Coffee')], txs))
+    for sp in ['\xa0', '\u2003', '\u3000', '\t']:
+        txs = [tx(f'CAFE{sp}BAR 12'), tx('CAFE BAR 12')]
+        out.append(([mk(f'CAFE{sp}BAR', f'Caf{sp}Bar', f'{sp}Food', f'Coffee{sp}', tags=[f'a{sp}b'])], txs))
+    cases = [make_case(specs, t) for specs, t in out]
+    for c in cases:
+        c['oracle_only'] = True
+    return cases
+
+
 def gen_cases(seed, n, today):
     rnd = random.Random(seed)
-    cases = []
+    cases = interaction_cases() + separator_cases()
     # boundary stream: every hazard pattern alone, every safe pattern alone with one modifier of each kind
     for hz, pool in (('backslash', HAZ_BACKSLASH), ('quote', HAZ_QUOTE), ('paren', HAZ_PAREN), ('case', HAZ_CASE)):
         for pat, descs in pool:
@@ -767,6 +852,10 @@ def run_chunk(args):
 def model_check(cases, results, today, stats, chunk=120):
     terms, where = [], []
     for ci, (case, res) in enumerate(zip(cases, results)):
+        if case.get('oracle_only'):
+            stats['oracle_only_files'] = stats.get('oracle_only_files', 0) + 1
+            stats['oracle_only_pairs'] = stats.get('oracle_only_pairs', 0) + len(case['txns'])
+            continue
         if 'loaded' not in res or 're' not in res:
             stats['files_skipped_loader'] = stats.get('files_skipped_loader', 0) + 1
             continue
